@@ -140,12 +140,14 @@ type constTable struct {
 }
 
 type normaliser struct {
-	pkg     *packages.Package
-	info    *types.Info
-	tables  map[*types.Var]*constTable
-	n       int
-	changed map[*ast.File]bool
-	log     []string
+	pkg      *packages.Package
+	info     *types.Info
+	tables   map[*types.Var]*constTable
+	aliasDef map[*ast.Ident]bool // uses of a table that define an alias of it
+	local    map[*types.Var]bool // tables that are local variables (must stay "used" after unrolling)
+	n        int
+	changed  map[*ast.File]bool
+	log      []string
 }
 
 // constantElt: a constant expression, or a reference to a package-level function / nil.
@@ -166,24 +168,58 @@ func (nz *normaliser) constantElt(e ast.Expr) bool {
 
 func (nz *normaliser) findTables() {
 	nz.tables = map[*types.Var]*constTable{}
+	nz.local = map[*types.Var]bool{}
+	nz.aliasDef = map[*ast.Ident]bool{}
+	// candidates: package-level and local variables defined by a composite literal
+	type candT struct {
+		name  *ast.Ident
+		cl    *ast.CompositeLit
+		local bool
+	}
+	var cands []candT
 	for _, f := range nz.pkg.Syntax {
 		for _, d := range f.Decls {
-			gd, ok := d.(*ast.GenDecl)
-			if !ok || gd.Tok != token.VAR {
-				continue
+			if gd, ok := d.(*ast.GenDecl); ok && gd.Tok == token.VAR {
+				for _, sp := range gd.Specs {
+					vs := sp.(*ast.ValueSpec)
+					if len(vs.Names) == 1 && len(vs.Values) == 1 {
+						if cl, ok := vs.Values[0].(*ast.CompositeLit); ok {
+							cands = append(cands, candT{vs.Names[0], cl, false})
+						}
+					}
+				}
 			}
-			for _, sp := range gd.Specs {
-				vs := sp.(*ast.ValueSpec)
-				if len(vs.Names) != 1 || len(vs.Values) != 1 {
-					continue
+		}
+		ast.Inspect(f, func(n ast.Node) bool {
+			switch x := n.(type) {
+			case *ast.DeclStmt:
+				if gd, ok := x.Decl.(*ast.GenDecl); ok && gd.Tok == token.VAR {
+					for _, sp := range gd.Specs {
+						vs := sp.(*ast.ValueSpec)
+						if len(vs.Names) == 1 && len(vs.Values) == 1 && strings.HasPrefix(vs.Names[0].Name, "_inl") {
+							// only the argument temporaries of inlined calls (a variadic or literal
+							// argument): the loops the reviewed functions themselves run over local
+							// lists stay loops
+							if cl, ok := vs.Values[0].(*ast.CompositeLit); ok {
+								cands = append(cands, candT{vs.Names[0], cl, true})
+							}
+						}
+					}
 				}
-				cl, ok := vs.Values[0].(*ast.CompositeLit)
-				if !ok {
-					continue
-				}
-				obj, _ := nz.info.Defs[vs.Names[0]].(*types.Var)
+			}
+			return true
+		})
+	}
+	{
+		{
+			for _, cd := range cands {
+				cl := cd.cl
+				obj, _ := nz.info.Defs[cd.name].(*types.Var)
 				if obj == nil {
 					continue
+				}
+				if cd.local {
+					nz.local[obj] = true
 				}
 				var elemT ast.Expr
 				switch t := cl.Type.(type) {
@@ -197,7 +233,7 @@ func (nz *normaliser) findTables() {
 				default:
 					continue
 				}
-				if len(cl.Elts) == 0 || len(cl.Elts) > 64 {
+				if len(cl.Elts) == 0 || len(cl.Elts) > 256 {
 					continue
 				}
 				okAll := true
@@ -235,6 +271,40 @@ func (nz *normaliser) findTables() {
 			}
 		}
 	}
+	// aliases: `var keys []string = _inl3_a2` (the parameter of an inlined helper bound to its
+	// argument temporary) names the same table
+	for _, f := range nz.pkg.Syntax {
+		ast.Inspect(f, func(n ast.Node) bool {
+			ds, ok := n.(*ast.DeclStmt)
+			if !ok {
+				return true
+			}
+			gd, ok := ds.Decl.(*ast.GenDecl)
+			if !ok || gd.Tok != token.VAR {
+				return true
+			}
+			for _, sp := range gd.Specs {
+				vs := sp.(*ast.ValueSpec)
+				if len(vs.Names) != 1 || len(vs.Values) != 1 {
+					continue
+				}
+				src, ok := vs.Values[0].(*ast.Ident)
+				if !ok {
+					continue
+				}
+				so, _ := nz.info.Uses[src].(*types.Var)
+				tb := nz.tables[so]
+				obj, _ := nz.info.Defs[vs.Names[0]].(*types.Var)
+				if tb == nil || obj == nil || !nz.local[so] || !types.Identical(obj.Type(), so.Type()) {
+					continue
+				}
+				nz.tables[obj] = &constTable{obj: obj, elts: tb.elts, elemT: tb.elemT}
+				nz.local[obj] = true
+				nz.aliasDef[src] = true
+			}
+			return true
+		})
+	}
 	if len(nz.tables) == 0 {
 		return
 	}
@@ -258,7 +328,12 @@ func (nz *normaliser) findTables() {
 				return true
 			}
 			parent := stack[len(stack)-2]
-			okUse := false
+			okUse := nz.aliasDef[id]
+			if as, isAs := parent.(*ast.AssignStmt); isAs && as.Tok == token.ASSIGN && len(as.Lhs) == 1 && len(as.Rhs) == 1 && as.Rhs[0] == ast.Expr(id) {
+				if l, isId := as.Lhs[0].(*ast.Ident); isId && l.Name == "_" {
+					okUse = true // `_ = keys`
+				}
+			}
 			switch p := parent.(type) {
 			case *ast.RangeStmt:
 				okUse = p.X == ast.Expr(id)
@@ -511,6 +586,9 @@ func (nz *normaliser) unrollIn(f *ast.File) {
 		if usedEnd {
 			out = append(out, &ast.LabeledStmt{Label: ast.NewIdent(endLabel), Stmt: &ast.EmptyStmt{}})
 		}
+		if nz.local[obj] {
+			out = append([]ast.Stmt{&ast.AssignStmt{Lhs: []ast.Expr{ast.NewIdent("_")}, Tok: token.ASSIGN, Rhs: []ast.Expr{ast.NewIdent(id.Name)}}}, out...)
+		}
 		c.Replace(&ast.BlockStmt{List: out})
 		nz.changed[f] = true
 		nz.log = append(nz.log, fmt.Sprintf("unrolled `range %s` (%d elements)", id.Name, len(tb.elts)))
@@ -591,13 +669,17 @@ func (nz *normaliser) containsIn(f *ast.File) {
 	})
 }
 
-// preNormalise runs N1/N2 on pkg; it returns the re-checked package and the overlay of the
-// changed files, or pkg itself and nil when nothing applied (or the result did not type-check).
-func preNormalise(pkg *packages.Package, rep *inlineReport) (*packages.Package, map[string][]byte) {
+// preNormalise runs N1-N3 on cur (the original package or the re-checked result of earlier
+// rounds, whose changed files are in base); it returns the re-checked package and the
+// accumulated overlay, or cur and nil when nothing applied (or the result did not type-check).
+func preNormalise(orig, cur *packages.Package, base map[string][]byte, rep *inlineReport, outer int) (*packages.Package, map[string][]byte) {
 	overlay := map[string][]byte{}
-	cur := pkg
+	for k, v := range base {
+		overlay[k] = v
+	}
+	changedAny := false
 	for round := 0; round < 3; round++ {
-		nz := &normaliser{pkg: cur, info: cur.TypesInfo, changed: map[*ast.File]bool{}, n: round * 1000}
+		nz := &normaliser{pkg: cur, info: cur.TypesInfo, changed: map[*ast.File]bool{}, n: outer*10000 + round*1000}
 		nz.findTables()
 		for _, f := range cur.Syntax {
 			nz.unrollIn(f)
@@ -622,24 +704,32 @@ func preNormalise(pkg *packages.Package, rep *inlineReport) (*packages.Package, 
 			}
 			next[cur.Fset.File(f.Pos()).Name()] = src
 		}
-		if failed {
-			rep.Kept = append(rep.Kept, "pre-normalisation: a rewritten file could not be printed; pass dropped")
-			break
+		var np *packages.Package
+		var err error
+		if !failed {
+			np, err = recheck(orig, next)
 		}
-		np, err := recheck(pkg, next)
-		if err != nil {
-			rep.Kept = append(rep.Kept, "pre-normalisation: the rewritten package does not type-check ("+strings.SplitN(err.Error(), "\n", 2)[0]+"); pass dropped")
+		if failed || err != nil {
+			why := "a rewritten file could not be printed"
+			if err != nil {
+				why = "the rewritten package does not type-check (" + strings.SplitN(err.Error(), "\n", 2)[0] + ")"
+			}
+			rep.Kept = append(rep.Kept, "pre-normalisation: "+why+"; pass dropped")
+			// the trees of cur were modified in place: take clean ones from the last good state
+			if clean, cerr := recheck(orig, overlay); cerr == nil {
+				cur = clean
+			}
 			break
 		}
 		rep.Rewrites = append(rep.Rewrites, nz.log...)
 		overlay, cur = next, np
+		changedAny = true
 	}
-	if len(overlay) == 0 {
-		return pkg, nil
+	if !changedAny {
+		return cur, nil
 	}
 	return cur, overlay
 }
-
 
 // ---- N3: slices.ContainsFunc / slices.Contains as loops ----
 
